@@ -59,6 +59,11 @@ pub struct UdpClient {
     /// host's secondary local address (127.0.0.2) instead of the primary one
     #[serde(default)]
     pub alt_local: bool,
+    /// UDP remotes only: every request of this client makes the target send this many filler
+    /// datagrams back at once (more than the server's reply queue of 64 holds: some may be lost,
+    /// as UDP allows) and the real reply three seconds later, which must arrive
+    #[serde(default)]
+    pub burst: usize,
 }
 #[derive(Serialize, Deserialize, Clone, Debug)]
 pub struct C01Plan {
@@ -97,6 +102,7 @@ struct ConnRes {
 }
 #[derive(Default, Debug, Clone)]
 struct UdpRes {
+    fillers: usize,
     sent: usize,
     replies_ok: usize,
     lost: usize,
@@ -519,7 +525,13 @@ async fn udp_client(ci: usize, c: UdpClient, res: Rc<RefCell<Vec<UdpRes>>>, faul
     };
     let mut buf = vec![0u8; 70_000];
     for (k, n) in c.sizes.iter().enumerate() {
-        let payload = udp_payload(ci, k, *n);
+        let mut payload = udp_payload(ci, k, *n);
+        if c.burst > 0 && !c.via_socks {
+            let mut p = b"BURST".to_vec();
+            p.extend((c.burst.min(60_000) as u16).to_be_bytes());
+            p.extend(&payload);
+            payload = p;
+        }
         let to_v6 = c.via_socks && c.v6.get(k).copied().unwrap_or(false);
         let target_port = if to_v6 { 9200 } else { 9100 } + tgt_of(k) as u16;
         let mut pkt = vec![];
@@ -554,7 +566,16 @@ async fn udp_client(ci: usize, c: UdpClient, res: Rc<RefCell<Vec<UdpRes>>>, faul
         // the reply: "re:" + target index + our payload
         let mut expect = format!("re{}:", tgt_of(k)).into_bytes();
         expect.extend(&payload);
-        match tokio::time::timeout(Duration::from_secs(8), sock.recv_from(&mut buf)).await {
+        let deadline = tokio::time::Instant::now() + Duration::from_secs(8);
+        let got = loop {
+            match tokio::time::timeout_at(deadline, sock.recv_from(&mut buf)).await {
+                Ok(Ok((len, _))) if c.burst > 0 && buf[..len].starts_with(b"fill:") => {
+                    res.borrow_mut()[ci].fillers += 1;
+                }
+                other => break other,
+            }
+        };
+        match got {
             Err(_) => {
                 res.borrow_mut()[ci].lost += 1;
                 if !faulty {
@@ -654,12 +675,25 @@ pub fn run(plan: &C01Plan, sched: &Sched) -> Outcome {
                     // every UDP target has an IPv6 twin
                     let t = t6 % plan.n_udp_targets;
                     let sock = if t6 < plan.n_udp_targets { UdpSocket::bind(("127.0.0.1", 9100 + t as u16)).await } else { UdpSocket::bind(("::1", 9200 + t as u16)).await }.expect("bind udp target");
+                    let sock = Rc::new(sock);
                     tokio::task::spawn_local(async move {
                         let mut b = vec![0u8; 70_000];
                         loop {
                             let Ok((n, from)) = sock.recv_from(&mut b).await else { break };
                             let mut r = format!("re{t}:").into_bytes();
                             r.extend(&b[..n]);
+                            if n >= 7 && b[..n].starts_with(b"BURST") {
+                                // a burst of fillers at once, the real reply three seconds later
+                                for k in 0..u16::from_be_bytes([b[5], b[6]]) {
+                                    sock.send_to(format!("fill:{k}").as_bytes(), from).await.ok();
+                                }
+                                let s2 = sock.clone();
+                                tokio::task::spawn_local(async move {
+                                    tokio::time::sleep(Duration::from_secs(3)).await;
+                                    s2.send_to(&r, from).await.ok();
+                                });
+                                continue;
+                            }
                             sock.send_to(&r, from).await.ok();
                         }
                     });
@@ -897,7 +931,10 @@ pub fn run(plan: &C01Plan, sched: &Sched) -> Outcome {
     let faulty = plan.net.udp_loss + plan.net.udp_dup + plan.net.udp_reorder > 0;
     for (ci, c) in plan.udp.iter().enumerate() {
         let r = &ures[ci];
-        let desc = format!("UDP client {ci} ({}, target {}, payload sizes {:?}): sent {} replies ok {} lost {}", if c.via_socks { "SOCKS5 UDP ASSOCIATE" } else { "UDP remote" }, c.target, c.sizes, r.sent, r.replies_ok, r.lost);
+        let desc = format!("UDP client {ci} ({}, target {}, payload sizes {:?}{}): sent {} replies ok {} lost {}", if c.via_socks { "SOCKS5 UDP ASSOCIATE" } else { "UDP remote" }, c.target, c.sizes, if c.burst > 0 { format!(", each request answered by {} fillers at once ({} got through) and the reply 3 s later", c.burst, r.fillers) } else { String::new() }, r.sent, r.replies_ok, r.lost);
+        if c.burst > 64 && r.replies_ok > 0 {
+            o.probe("udp-reply-after-a-burst-beyond-the-server-queue", 1);
+        }
         if !r.done {
             o.violate("C01:udp-hang", format!("still pending at the horizon; {desc}"));
         }
